@@ -143,6 +143,19 @@ func (in *e2eInst) Apply(ev core.Event) map[string]any {
 			holders[i] = in.holders(sub)
 		}
 		return map[string]any{"ok": ok, "node": node, "ippool": ippool, "holders": holders}
+	case "release":
+		// the subscribers give their addresses back through entry node `entry`
+		entry := toInt(ev["entry"])
+		subs := toInts(ev["subs"])
+		holders := make([][]int, len(subs))
+		for i, si := range subs {
+			sub := in.s.subs[si-1]
+			ctx, cancel := context.WithTimeout(context.Background(), 10*time.Second)
+			in.pools[entry-1].Release(ctx, sub)
+			cancel()
+			holders[i] = in.holders(sub)
+		}
+		return map[string]any{"holders": holders}
 	case "down":
 		// node x stops answering and every other node's health loop has marked it unhealthy
 		x := toInt(ev["x"])
@@ -207,6 +220,17 @@ func GenE2EEvents(k, nsubs, down int) []core.Event {
 	if down > 0 {
 		evs = append(evs, core.Event{"op": "down", "x": down})
 		batch(half+1, nsubs, without(all, down))
+		// the second half (served while the node was down, partly by fail-over) is released through the
+		// surviving nodes and requested again
+		alive := without(all, down)
+		for b := half + 1; b <= nsubs; b += 25 {
+			var subs []int
+			for s := b; s < b+25 && s <= nsubs; s++ {
+				subs = append(subs, s)
+			}
+			evs = append(evs, core.Event{"op": "release", "entry": alive[(b/25)%len(alive)], "subs": subs})
+		}
+		batch(half+1, nsubs, alive)
 	}
 	return evs
 }
